@@ -25,7 +25,8 @@ pub struct Plan {
     pub metric: Metric,
     pub dim: usize,
     pub idx: u16,
-    pub versions: Vec<(Vec<Op>, Option<usize>, Option<usize>, u64)>,
+    /// (operations, n_trees, split_after, build seed, build before committing?)
+    pub versions: Vec<(Vec<Op>, Option<usize>, Option<usize>, u64, bool)>,
 }
 
 pub fn plan(seed: u64) -> Plan {
@@ -47,7 +48,9 @@ pub fn plan(seed: u64) -> Plan {
                     ops.push(Op::Add { idx, id, v: gen_vector(&mut rng, dim, &p, false) });
                 }
             }
-            (ops, [None, Some(2usize), Some(3)][rng.gen_range(0..3)], [None, Some(1usize), Some(2)][rng.gen_range(0..3)], rng.gen())
+            // some versions are committed without a build (pending updates survive the commit); the last one always builds
+            let build = v + 1 == nv || v == 0 || rng.gen_bool(0.65);
+            (ops, [None, Some(2usize), Some(3)][rng.gen_range(0..3)], [None, Some(1usize), Some(2)][rng.gen_range(0..3)], rng.gen(), build)
         })
         .collect();
     Plan { use_tmpdir: seed % 2 == 0, metric, dim, idx, versions }
@@ -97,7 +100,7 @@ pub fn run_plan_from(p: &Plan, dir: &std::path::Path, kill: &Kill, report: &mut 
         Kill::AtPoll(n) => Some(*n),
         _ => None,
     };
-    for (vi, (ops, n_trees, split_after, bseed)) in p.versions.iter().enumerate() {
+    for (vi, (ops, n_trees, split_after, bseed, do_build)) in p.versions.iter().enumerate() {
         let version = vi + 1;
         if version < first {
             continue;
@@ -132,6 +135,7 @@ pub fn run_plan_from(p: &Plan, dir: &std::path::Path, kill: &Kill, report: &mut 
             }
         }
         nops += 1;
+        if *do_build {
         with_metric!(p.metric, D, {
             let adb: arroy::Database<D> = db.remap_types();
             let mut wr = arroy::Writer::<D>::new(adb, p.idx, p.dim);
@@ -156,6 +160,7 @@ pub fn run_plan_from(p: &Plan, dir: &std::path::Path, kill: &Kill, report: &mut 
             b.progress(|_| {});
             b.build(&mut w).unwrap();
         });
+        }
         on_version(version, &dump(db, &w));
         report(&format!("START {version}"));
         if let Kill::InCommit { version: kv, delay_us } = kill {
@@ -222,7 +227,7 @@ pub fn parent(seed: u64, hno: usize, thorough: bool) -> (Vec<Value>, usize) {
     let (polls, nops) = pool1.install(|| run_plan(&p, gdir.path(), &Kill::Never, &mut |_| {}, &mut |v, d| versions.push((v, d.clone()))));
     for (v, d) in &versions {
         let st = proj(&mut ctx, d);
-        out.push(json!({"ev":"C.Version","h":hno as i64,"seq":0,"v":*v as i64,"st":st}));
+        out.push(json!({"ev":"C.Version","h":hno as i64,"seq":0,"v":*v as i64,"st":st,"built": p.versions[*v - 1].4}));
     }
     drop(gdir);
     // kill points
